@@ -289,8 +289,32 @@ fn check_var_slots(t: &mut Tape, ctx: &Ctx) -> Outcome {
     let names = ["A", "B%", "C#", "D$", "E!", "Q(3)", "Q(4)", "R$(1,1)", "S%(0)", "X1", "Y2$", "Z(10)"];
     let base = term.rt.verif_probe().vars_len;
     let mut live: Vec<&str> = vec![];
+    let mut dimmed: Vec<&str> = vec![];
     for _ in 0..n {
+        if !dimmed.is_empty() && t.chance(1, 6) {
+            // ERASE gives back every element of the array, the one at the upper bound included
+            let a = dimmed.remove(t.below(dimmed.len()));
+            let line = format!("ERASE {}", a);
+            script.push_str(&line);
+            script.push('\n');
+            term.line(&line, &mut o);
+            let out = flat(&term.take());
+            if !out.is_empty() {
+                return Outcome::fail("assignment-printed", format!("{:?} printed {:?}", line, out), script);
+            }
+            live.retain(|x| !x.starts_with(&format!("{}(", a)));
+            let now = term.rt.verif_probe().vars_len;
+            if now != base + live.len() {
+                return Outcome::fail("slot-not-freed", format!("after {:?}: {} stored values, but exactly {} variables hold a non-default value ({:?})", line, now - base, live.len(), live), script);
+            }
+            continue;
+        }
         let v = *t.pick(&names);
+        if let Some(i) = v.find('(') {
+            if !dimmed.contains(&&v[..i]) {
+                dimmed.push(&v[..i]);
+            }
+        }
         let is_str = v.contains('$');
         let set = t.chance(2, 3);
         let line = if set {
